@@ -49,21 +49,6 @@ def v1a_pages(big=False):
     return p
 
 
-def backup_commit_event(events):
-    """1-based index of the line event of the commit inside the first
-    backup_db call (located through the source text)."""
-    import inspect
-
-    from wikitextprocessor import Wtp
-
-    src, first = inspect.getsourcelines(Wtp.backup_db)
-    lines = [first + i for i, l in enumerate(src)
-             if l.strip() == "self.db_conn.commit()"]
-    idx = [i for i, (fn, ln) in enumerate(events, 1)
-           if fn == "backup_db" and ln in lines]
-    return idx[0] if idx else 0
-
-
 def v3_overrides():
     ov = {}
     for i in range(1, N_PAGES, 3):
@@ -82,22 +67,48 @@ def v2_pages(big=False):
 
 class Killer:
     """Line tracer restricted to the named functions; exits the process
-    (no cleanup) at the k-th line event, or only counts."""
+    (no cleanup) at the k-th line event.  In the dry run (kill_at None) it
+    records, for every line event, what an independent observer connection
+    sees in the database at that moment, and the returns of backup_db /
+    create_db (a backup comes into force when backup_db returns; it is
+    consumed when a create_db that found it returns)."""
 
-    def __init__(self, kill_at=None, phase=None):
+    def __init__(self, kill_at=None, observe=None):
         self.n = 0
         self.kill_at = kill_at
         self.events = []
         self.active = True
-        self.phase = phase
+        self.observe = observe
+        self.seen = []        # observer classification before line event i+1
+        self.returns = []     # (function name, number of line events so far,
+        #                        observer classification, backup existed at call)
+        self.calls = {}
 
     def local(self, frame, event, arg):
-        if event == "line" and self.active:
+        if not self.active:
+            return self.local
+        if event == "line":
             self.n += 1
             if self.kill_at is None:
                 self.events.append((frame.f_code.co_name, frame.f_lineno))
+                if self.observe:
+                    self.active = False
+                    try:
+                        self.seen.append(self.observe())
+                    finally:
+                        self.active = True
             elif self.n == self.kill_at:
                 os._exit(99)
+        elif event == "return" and self.kill_at is None and self.observe \
+                and frame.f_code.co_name in ("backup_db", "create_db") \
+                and arg is None and sys.exc_info()[0] is None:
+            self.active = False
+            try:
+                self.returns.append((frame.f_code.co_name, self.n,
+                                     self.observe(),
+                                     self.calls.pop(id(frame), False)))
+            finally:
+                self.active = True
         return self.local
 
     def glob(self, frame, event, arg):
@@ -107,8 +118,37 @@ class Killer:
         base = os.path.basename(co.co_filename)
         names = TRACED.get(base)
         if names and co.co_name in names and "wikitextprocessor" in co.co_filename:
+            if co.co_name == "create_db" and self.observe and self.active:
+                self.calls[id(frame)] = self.observe("backup-exists")
             return self.local
         return None
+
+
+def make_observer(d, big):
+    """What another connection sees right now (last committed content)."""
+    import sqlite3
+
+    db = os.path.join(d, "pages.db")
+    bk = os.path.join(d, "pages_backup.db")
+
+    def observe(what=None):
+        if what == "backup-exists":
+            return os.path.exists(bk)
+        if not os.path.exists(db):
+            return "no-file"
+        try:
+            con = sqlite3.connect(db, timeout=5)
+            try:
+                rows = list(con.execute(
+                    "SELECT title, namespace_id, body FROM pages"))
+            finally:
+                con.close()
+        except sqlite3.Error as e:
+            return "unreadable:" + type(e).__name__
+        return classify([((t, ns), b) for t, ns, b in rows
+                         if not t.endswith("_sandbox_phase1")], big)
+
+    return observe
 
 
 def life(d, variant, flow, kill_at, big, ready_path=None):
@@ -141,7 +181,7 @@ def life(d, variant, flow, kill_at, big, ready_path=None):
     if ready_path:
         with open(ready_path, "w") as f:
             f.write("phase 0 done")
-    k = Killer(kill_at)
+    k = Killer(kill_at, make_observer(d, big) if kill_at is None else None)
     sys.settrace(k.glob)
     try:
         from pathlib import Path
@@ -165,7 +205,30 @@ def life(d, variant, flow, kill_at, big, ready_path=None):
         ctx2.close_db_conn()
     finally:
         sys.settrace(None)
-    return k.events
+    if kill_at is None:
+        final = make_observer(d, big)()
+        return {"events": k.events, "seen": k.seen, "returns": k.returns,
+                "final": final}
+    return None
+
+
+def expected_at(rec, k):
+    """Content a pristine open must find after a kill just before line event
+    k (k None = no kill): the content at the completion of the latest backup
+    that is still in force, else the last committed content."""
+    if k is None:
+        return rec["final"]
+    in_force = None
+    for fn, n, seen, had_backup in rec["returns"]:
+        if n >= k:
+            break          # returned at or after the kill point
+        if fn == "backup_db":
+            in_force = seen
+        elif fn == "create_db" and had_backup:
+            in_force = None    # the restore consumed it
+    if in_force is not None:
+        return in_force
+    return rec["seen"][k - 1]
 
 
 def recovery_open(d, kill_at):
@@ -209,35 +272,11 @@ def verify(d):
             "files_before_open": files}
 
 
-def commit_event_of(events):
-    """1-based index of the line event of the commit that ends
-    overwrite_pages(do_overwrite=True) (found through the source text, not a
-    hard-coded line number)."""
-    import inspect
-
-    from wikitextprocessor import dumpparser
-
-    src, first = inspect.getsourcelines(dumpparser.overwrite_pages)
-    lines = [first + i for i, l in enumerate(src)
-             if l.strip() == "wtp.db_conn.commit()"]
-    cands = [i for i, (fn, ln) in enumerate(events, 1)
-             if fn == "overwrite_pages" and ln in lines]
-    return cands[-1] if cands else len(events)
-
-
-def second_backup_event(events):
-    """1-based index of the line event at which the second backup_db call of
-    the double-backup flow moves its finished copy into place (located
-    through the source text: the last line of backup_db)."""
-    import inspect
-
-    from wikitextprocessor import Wtp
-
-    src, first = inspect.getsourcelines(Wtp.backup_db)
-    last_line = first + max(i for i, l in enumerate(src) if l.strip())
-    idx = [i for i, (fn, ln) in enumerate(events, 1)
-           if fn == "backup_db" and ln == last_line]
-    return idx[-1] if len(idx) >= 2 else len(events)
+def v3_pages(big=False):
+    p = dict(v2_pages(big))
+    for t, d in v3_overrides().items():
+        p[(t, d["namespace_id"])] = d["body"]
+    return p
 
 
 def classify(pages_list, big):
@@ -246,6 +285,10 @@ def classify(pages_list, big):
         return "v1"
     if pages == v1a_pages(big):
         return "v1a"
+    if pages == v3_pages(big):
+        return "v3"
+    if not pages:
+        return "empty"
     if pages == v2_pages(big):
         return "v2"
     v1 = v1_pages(big)
@@ -265,17 +308,7 @@ def one_point(args):
         if status == "timeout":
             return [("harness", "life-cycle child timed out", None)], 0
         # died with 99 = killed at the point; ok = ran to completion
-        expected = "v1"
-        if flow == "plain" and (k is None or k > commit_event):
-            expected = "v2"
-        if variant == "uncommitted-tail":
-            # commit_event is here the backup's own commit: before it the
-            # tail pages were never committed
-            expected = "v1" if (k is None or k > commit_event) else "v1a"
-        elif flow == "double-backup" and (k is None or k > commit_event):
-            # commit_event is here the event at which the SECOND backup
-            # becomes the backup in force (its move into place)
-            expected = "v2"
+        expected = commit_event   # the expected content, from the dry run
         sub = 0
         if level2:
             # enumerate kill points of the recovering open as well
@@ -368,6 +401,17 @@ def sigkill_point(args):
         shutil.rmtree(d, ignore_errors=True)
 
 
+def _runs(seq):
+    """Run-length summary of the observer's view, for the evidence file."""
+    out = []
+    for x in seq:
+        if out and out[-1][0] == x:
+            out[-1][1] += 1
+        else:
+            out.append([x, 1])
+    return out
+
+
 def run(run):
     env.setup()
     quick = run.tier == "quick"
@@ -399,13 +443,33 @@ def run(run):
                 continue
             if st != "ok":
                 raise RuntimeError(f"dry run failed: {st} {events!r}")
+            rec = events
+            events = rec["events"]
             n = len(events)
-            commit_event = (backup_commit_event(events)
-                            if variant == "uncommitted-tail"
-                            else second_backup_event(events)
-                            if flow == "double-backup"
-                            else commit_event_of(events))
-            plan[(variant, flow)] = {"events": n, "commit_event": commit_event}
+            plan[(variant, flow)] = {
+                "events": n,
+                "content_seen_by_observer": _runs(rec["seen"]),
+                "backups_and_restores": [(f, i, c) for f, i, c, _ in
+                                         rec["returns"]],
+                "final": rec["final"]}
+            # absolute anchors, known from the script itself (the observer
+            # supplies WHERE content becomes durable, not WHAT is right)
+            want_final = {"backup": "v1", "plain": "v2",
+                          "double-backup": "v2"}[flow]
+            bks = [c for f, i, c, _ in rec["returns"] if f == "backup_db"]
+            want_bks = {"backup": ["v1"], "plain": [],
+                        "double-backup": ["v1", "v2"]}[flow]
+            if rec["final"] != want_final or bks != want_bks:
+                run.case(h((variant, flow, "anchors")), True)
+                run.violation(
+                    {"kind": "uninterrupted-run-wrong", "variant": variant,
+                     "flow": flow},
+                    f"variant={variant} flow={flow}: without any kill the "
+                    f"script ends with {rec['final']} (expected {want_final})"
+                    f" and its backups held {bks} (expected {want_bks})",
+                    {"variant": variant, "flow": flow, "k": None, "j": None,
+                     "big": False})
+                continue
             pts = list(range(1, n + 1))
             if quick:
                 # every distinct (function, line) once + every 5th event
@@ -435,10 +499,10 @@ def run(run):
             for k in pts:
                 level2 = flow == "backup" and (
                     k in strategic or ((not quick) and k % 3 == 0))
-                jobs.append((variant, flow, k, False, commit_event, level2,
-                             events[k - 1]))
-            jobs.append((variant, flow, None, False, commit_event, False,
-                         ("no-kill", 0)))
+                jobs.append((variant, flow, k, False, expected_at(rec, k),
+                             level2, events[k - 1]))
+            jobs.append((variant, flow, None, False, expected_at(rec, None),
+                         False, ("no-kill", 0)))
     res = par.map_shards(one_point, [(j,) for j in jobs], procs)
     for job, (viols, evals) in zip(jobs, res):
         variant, flow, k, big, ce, level2, where = job
@@ -496,9 +560,14 @@ def run(run):
         "every third first-level point; thorough also SIGKILLs at 80 drawn delays during the "
         "life-cycle on a ~4 MB database. Oracle, from a pristine process "
         "opening the path: no exception, PRAGMA integrity_check = ok, and the "
-        "page map equals v1 whenever a backup flow is used (the backup is "
-        "taken before any v2 write), and the last committed map (v1 before / "
-        "v2 after the overwrite's commit line) without backup; with two "
+        "page map equals the content at the completion of the latest backup "
+        "still in force, else the last committed content - both taken from "
+        "the uninterrupted run, where an independent observer connection "
+        "records at every line event what is durably committed, a backup "
+        "comes into force when backup_db returns and is consumed when a "
+        "create_db that found it returns (function names only, no source "
+        "lines); the uninterrupted run itself is anchored to the script "
+        "(final content and content of each backup); with two "
         "backups v1 until the second backup is moved into place and v2 from "
         "then on; with an uncommitted tail the committed part of v1 until the "
         "backup's own commit and all of v1 after it. Non-trivial = "
@@ -523,9 +592,9 @@ def replay(run, case):
                                        timeout=120)
     finally:
         shutil.rmtree(d, ignore_errors=True)
-    ce = (backup_commit_event(events) if variant == "uncommitted-tail"
-          else second_backup_event(events) if flow == "double-backup"
-          else commit_event_of(events))
+    rec = events
+    events = rec["events"]
+    ce = expected_at(rec, k if not isinstance(k, str) else None)
     if isinstance(k, str):
         viols, _ = sigkill_point((variant, int(k.split("@")[1][:-2])))
     else:
